@@ -2107,9 +2107,17 @@ class TensorDict(TensorDictBase):
             if batch_size == self.batch_size:
                 return self
 
+            squeezed_dims = [i for i, size in enumerate(self.batch_size) if size == 1]
+
             # we only want to squeeze dimensions lower than the batch dim, and view
             # is the perfect op for this
             def _squeeze(tensor):
+                if _is_tensor_collection(type(tensor)):
+                    # view() erases the dim names: a nested tensordict is squeezed one
+                    # dim at a time so that the names of the dims that stay are kept
+                    for squeezed_dim in reversed(squeezed_dims):
+                        tensor = tensor.squeeze(squeezed_dim)
+                    return tensor
                 return tensor.view((*batch_size, *tensor.shape[self.batch_dims :]))
 
             return self._fast_apply(
